@@ -1529,3 +1529,15 @@ LEVEL_TEXT += " Also (R7): every framework-generated error on the endpoint path 
 LEVEL_TEXT += " Also (R9): the $ref an operation uses for its error responses names the components.responses entry that holds that error type's schema."
 LEVEL_TEXT += ' Also (R10 = C09.R8, R11 = C08.R1): the documented media type is matched after normalisation, and schema keywords are carried to the keyword of the same meaning.'
 LEVEL_TEXT += " Also (R12): the extension mode (pagination / websocket) documented for a tuple of extractors is None when no member declares one, the declaring member's mode whatever its position when exactly one does, and a panic when two members declare different ones — decided by interpreting each tuple's metadata() over every assignment of modes to its members (the members' own metadata() stubbed)."
+
+
+SELFTEST += [
+    {"name": "results-page-optional-token-omitted-when-absent", "kind": "benign", "why": "the property holds: next_page is documented as an optional (nullable, not required) property, so omitting it when None is valid against the schema",
+     "edits": [("dropshot/src/pagination.rs", "    pub next_page: Option<String>,\n    /// list of items on this page of results\n    pub items: Vec<ItemType>,",
+                "    #[serde(skip_serializing_if = \"Option::is_none\")]\n    pub next_page: Option<String>,\n    /// list of items on this page of results\n    pub items: Vec<ItemType>,")]},
+    {"name": "results-page-required-items-omitted-when-empty", "kind": "mutant", "expect": ["C07.R13"], "why": "an empty page is sent as `{}` while the document requires `items`",
+     "edits": [("dropshot/src/pagination.rs", "    /// list of items on this page of results\n    pub items: Vec<ItemType>,\n}\n\nimpl<ItemType> JsonSchema",
+                "    /// list of items on this page of results\n    #[serde(default = \"Vec::new\", skip_serializing_if = \"Vec::is_empty\")]\n    pub items: Vec<ItemType>,\n}\n\nimpl<ItemType> JsonSchema")]},
+    {"name": "error-body-required-message-omitted-when-empty", "kind": "mutant", "expect": ["C07.R5"], "why": "an error with an empty message is sent without `message`, which the hand-written schema requires",
+     "edits": [("dropshot/src/error.rs", "    pub error_code: Option<String>,\n    pub message: String,", "    pub error_code: Option<String>,\n    #[serde(skip_serializing_if = \"String::is_empty\")]\n    pub message: String,")]},
+]
